@@ -19,6 +19,8 @@ structure FaEnv where
   reserved : Std.HashSet String := {}
   reservedList : List (List Char) := []
   lower : Std.HashMap Nat (List Char) := {}
+  /-- passlib values supplied by the harness: "m<saltlen>:<plain>" / "s:<plain>" ↦ hash -/
+  passlib : Std.HashMap String (List Char) := {}
 
 def mkLower : Std.HashMap Nat (List Char) :=
   Generated.lowerTable.foldl (fun m (k, v) => m.insert k (v.map Char.ofNat)) {}
@@ -57,7 +59,9 @@ def mkPipeline (env : FaEnv) (ws : List String) : Except String Pipeline := do
   let userReserved := parseList (get "reserved" "-")
   let userSet : Std.HashSet String := userReserved.foldl (fun s w => s.insert (String.ofList w)) {}
   let isSpace := fun c => inRanges spaceSet c
-  let ext : Ext := { md5crypt := phMd5, sha512crypt := phSha, isSpace := isSpace,
+  let md5f := fun (n : Nat) (pl : List Char) => (env.passlib.get? (s!"m{n}:" ++ String.ofList pl)).getD (phMd5 n pl)
+  let shaf := fun (pl : List Char) => (env.passlib.get? ("s:" ++ String.ofList pl)).getD (phSha pl)
+  let ext : Ext := { md5crypt := md5f, sha512crypt := shaf, isSpace := isSpace,
                      isReserved := fun v => env.reserved.contains (String.ofList v) || userSet.contains (String.ofList v) }
   let icase := parseIcase (get "ic" "-")
   let wenv : WEnv := { lower := fun c => (env.lower.get? c.toNat).getD [c],
